@@ -915,6 +915,10 @@ def run(prog, rep, tier):
     from ..flow import check_undefined_attrs
     rep.rule('ATTR-defined', 'every self.X read names an attribute bound somewhere in the class family')
     check_undefined_attrs(prog, rep, ['tenpy/algorithms/tebd.py', 'tenpy/algorithms/tdvp.py', 'tenpy/algorithms/mpo_evolution.py', 'tenpy/algorithms/algorithm.py'])
+    from ..labels import check_labels
+    rep.rule('LABEL-known', 'typestate of leg-label sets: literal labels used on a local tensor '
+             'whose complete label set is known (literal transposition, contractions) exist on it')
+    check_labels(prog, rep, ['tenpy/algorithms/tebd.py', 'tenpy/algorithms/tdvp.py', 'tenpy/algorithms/mpo_evolution.py'])
     return rep.finish(
         level='other',
         explanation='Accounting clauses of C14 decided statically: class-by-class count of '
